@@ -273,6 +273,9 @@ func (m *FS) Open(p string, flag int, perm uint32) (*Handle, string) {
 	}
 	h := &Handle{fs: m, Path: p, R: acc == os.O_RDONLY || acc == os.O_RDWR, W: acc == os.O_WRONLY || acc == os.O_RDWR, Append: flag&os.O_APPEND != 0}
 	if flag&os.O_TRUNC != 0 && h.W {
+		if len(n.Content) > 0 {
+			n.Timed = false
+		}
 		n.Content = nil
 	}
 	return h, OK
